@@ -28,8 +28,8 @@ def families(draw):
     kind = draw(st.sampled_from(["ramp", "ramp", "move", "move", "decimal-ramp", "grow", "grow"]))
     fam = []
     if kind == "ramp":
-        ps = sorted(draw(st.lists(st.integers(1, 99), min_size=3, max_size=7, unique=True)))
-        fam = [[str(p), str(100 - p)] for p in ps]
+        ps = sorted(draw(st.lists(st.one_of(st.integers(1, 99), st.sampled_from([0, 0, 100])), min_size=3, max_size=7, unique=True)))
+        fam = [[str(p), str(100 - p)] for p in ps]  # incl. a ramp that starts at 0% (an explicit weight 0) or ends at 100%
     elif kind == "decimal-ramp":
         ps = sorted(draw(st.lists(st.integers(1, 999), min_size=3, max_size=6, unique=True)))
         fam = [["%d.%d" % (p // 10, p % 10), "%d.%d" % ((1000 - p) // 10, (1000 - p) % 10), "0"] for p in ps]
@@ -143,6 +143,16 @@ def judge(case):
                 live_idx[(vi, repr(u))] = int(a[1][len("https://cdn.example/g"):-3])
             else:
                 viol.append("live evaluator: unit %r weights %r: unexpected outcome %r" % (u, ws, a))
+    # a ramp that starts at 0% declares a zero share: nobody may be in that group, whatever their position
+    for vi, ws in enumerate(fam):
+        zero = [gi for gi, w in enumerate(ws) if float(w) == 0]
+        if not zero or case.get("solo_labels"):
+            continue
+        for j in range(300):
+            a = sut.call(evs[vi], {"uid": "zero-probe-%d" % j})
+            if a[0] == "group" and isinstance(a[1], str) and a[1].startswith("v%d_g" % vi) and int(a[1][len("v%d_g" % vi):]) in zero:
+                viol.append("unit %r is in group %d of %r, whose declared share is 0" % ("zero-probe-%d" % j, int(a[1][len("v%d_g" % vi):]), ws))
+                break
     moved = 0
     for u in units:
         lo, hi = Fraction(0), Fraction(1)
@@ -198,8 +208,10 @@ def judge(case):
         for mode in ("as-written", "float", "cum"):
             lo, hi = Fraction(0), Fraction(1)
             prev = None
+            buf = []  # ONE list object per ramp, edited in place from step to step (a long-lived caller's weights list)
             for vi, ws in enumerate(fam):
-                nums = [float(w) for w in ws] if mode == "float" else [float(w) if "." in w else int(w) for w in ws]
+                buf[:] = [float(w) for w in ws] if mode == "float" else [float(w) if "." in w else int(w) for w in ws]
+                nums = buf
                 try:
                     if mode == "cum":
                         from itertools import accumulate as _acc
